@@ -481,6 +481,7 @@ impl<'a, 'tcx> BodyCx<'a, 'tcx> {
                 ("kind", esc(&format!("{:?}", k))),
                 ("o", self.operand(o)),
                 ("ty", self.cx.ty(*t)),
+                ("from", self.cx.ty(o.ty(&self.body.local_decls, self.cx.tcx))),
             ]),
             Rvalue::BinaryOp(op, ops) => {
                 let (x, y) = &**ops;
